@@ -363,3 +363,169 @@ Proof.
   autorewrite with rsteps. apply filter_ext. intros c.
   apply (sel_major_filters_agree rx_spec_full rx_spec_sub jeqb d f (snd c)).
 Qed.
+
+(* ---------- C11 at string level: one index or slice selector applied to the root ---------- *)
+Lemma single_bracket_string_level s (d : json) :
+  sel_ok s -> sel_range s -> wf_json d = true ->
+  exists ps,
+    api_with_path (36%N :: 91%N :: sel_text s ++ [93%N]) d = Some (map (fun p => (inner p, path p)) ps)
+    /\ map node_of ps = cur_query (GCons (SegSel (sel_ast s)) GNil) d.
+Proof.
+  intros Hs Hr Hw. pose (q := [FBracket s []]).
+  assert (Hq1 : Forall seg_ok q) by (constructor; [split; [exact Hs|constructor]|constructor]).
+  assert (Hq2 : Forall seg_range q) by (constructor; [split; [exact Hr|constructor]|constructor]).
+  assert (Et : segs_text q = 91%N :: sel_text s ++ [93%N]).
+  { unfold q, segs_text. cbn [flat_map seg_text]. rewrite app_nil_r. unfold bracket_text. cbn [commas_text flat_map app]. reflexivity. }
+  unfold api_with_path. rewrite <- Et, (parse_frag q Hq1 Hq2).
+  destruct (js_path_process_refines rx_model_search rx_spec_full rx_spec_sub rx_model_full_ok rx_model_sub_ok
+              (query_ast q) d (query_ast_wf q Hq1)) as [ps [E1 E2]].
+  change (m_query (query_ast q) d = Some ps) in E1. exists ps. rewrite E1. split; [reflexivity|]. exact E2.
+Qed.
+
+(* the TEXT `$[start:end:step]` (any subset of the three parts, any integers of the I-JSON range) on any document
+   returns exactly the elements at the RFC 9535 2.3.4.2.2 index sequence, in that order -- nothing for a non-array *)
+Theorem slice_string_level a b c (d : json) :
+  oz_ok a -> oz_ok b -> oz_ok c -> wf_json d = true ->
+  exists ps,
+    api_with_path (36%N :: 91%N :: sel_text (FSlice a b c) ++ [93%N]) d = Some (map (fun p => (inner p, path p)) ps)
+    /\ map node_of ps = sel_slice a b c ([], d).
+Proof.
+  intros Ha Hb Hc Hw.
+  destruct (single_bracket_string_level (FSlice a b c) d I (conj Ha (conj Hb Hc)) Hw) as [ps [E1 E2]].
+  exists ps. split; [exact E1|]. rewrite E2. unfold cur_query, s_query, r_query. cbn [sel_ast].
+  autorewrite with rsteps. cbn [flat_map]. rewrite app_nil_r. autorewrite with rsteps. reflexivity.
+Qed.
+
+(* the TEXT `$[i]`: element i, or len+i for negative i, nothing when out of range or on a non-array *)
+Theorem index_string_level i (d : json) :
+  z_ok i -> wf_json d = true ->
+  exists ps,
+    api_with_path (36%N :: 91%N :: sel_text (FIndex i) ++ [93%N]) d = Some (map (fun p => (inner p, path p)) ps)
+    /\ map node_of ps = sel_index i ([], d).
+Proof.
+  intros Hi Hw.
+  destruct (single_bracket_string_level (FIndex i) d I Hi Hw) as [ps [E1 E2]].
+  exists ps. split; [exact E1|]. rewrite E2. unfold cur_query, s_query, r_query. cbn [sel_ast].
+  autorewrite with rsteps. cbn [flat_map]. rewrite app_nil_r. autorewrite with rsteps. reflexivity.
+Qed.
+
+(* ---------- C02 at string level: the selectors of one bracketed selection contribute in the order written ---------- *)
+Definition plain_sel_nodes (x : fsel) (n : node) : list node :=
+  match x with
+  | FName k => sel_name (39%N :: k ++ [39%N]) n
+  | FWild => children n
+  | FIndex i => sel_index i n
+  | FSlice a b c => sel_slice a b c n
+  end.
+
+Lemma plain_selector_nodes b root x n :
+  r_selector rx_spec_full rx_spec_sub jeqb b root (sel_ast x) n = plain_sel_nodes x n.
+Proof. destruct x; cbn [sel_ast plain_sel_nodes]; autorewrite with rsteps; reflexivity. Qed.
+
+Lemma selectors_major_single root L n :
+  r_selectors_major rx_spec_full rx_spec_sub jeqb true root (selectors_of_list (map sel_ast L)) [n]
+  = flat_map (fun x => plain_sel_nodes x n) L.
+Proof.
+  induction L as [|x L IH]; [unfold selectors_of_list; cbn [map fold_right]; autorewrite with rsteps; reflexivity|].
+  unfold selectors_of_list in *. cbn [map fold_right flat_map]. autorewrite with rsteps. cbn [flat_map]. rewrite app_nil_r.
+  rewrite plain_selector_nodes, IH. reflexivity.
+Qed.
+
+(* the TEXT `$[s1,...,sn]` (names, wildcards, indices, slices in any mixture, n >= 1) returns, on every document, the
+   nodes of s1, then those of s2, ... -- list equality, duplicates kept *)
+Theorem union_string_level s l (d : json) :
+  sel_ok s -> Forall sel_ok l -> sel_range s -> Forall sel_range l -> wf_json d = true ->
+  exists ps,
+    api_with_path (36%N :: bracket_text s l) d = Some (map (fun p => (inner p, path p)) ps)
+    /\ map node_of ps = flat_map (fun x => plain_sel_nodes x ([], d)) (s :: l).
+Proof.
+  intros Hs Hl Hrs Hrl Hw. pose (q := [FBracket s l]).
+  assert (Hq1 : Forall seg_ok q) by (constructor; [split; assumption|constructor]).
+  assert (Hq2 : Forall seg_range q) by (constructor; [split; assumption|constructor]).
+  assert (Et : segs_text q = bracket_text s l) by (unfold q, segs_text; cbn [flat_map seg_text]; apply app_nil_r).
+  unfold api_with_path. rewrite <- Et, (parse_frag q Hq1 Hq2).
+  destruct (js_path_process_refines rx_model_search rx_spec_full rx_spec_sub rx_model_full_ok rx_model_sub_ok
+              (query_ast q) d (query_ast_wf q Hq1)) as [ps [E1 E2]].
+  change (m_query (query_ast q) d = Some ps) in E1. exists ps. rewrite E1. split; [reflexivity|].
+  rewrite E2. unfold query_ast, q. cbn [map segments_of_list seg_ast]. unfold cur_query, s_query, r_query.
+  unfold bracket_ast. destruct l as [|s2 l].
+  - autorewrite with rsteps. cbn [flat_map]. rewrite !app_nil_r. apply plain_selector_nodes.
+  - autorewrite with rsteps. apply selectors_major_single.
+Qed.
+
+(* ---------- C13 at string level: `?expr` and `?(expr)` ---------- *)
+Theorem parens_string_level n (e : list (list (xatom (SelT n)))) (d : json) :
+  eok (SelT n) (sokT n) e -> egood (SelT n) (sgoodT lit_arg n) (sastT n) lit_arg e -> wf_json d = true ->
+  exists ps1 ps2,
+    api_with_path (36%N :: 91%N :: filter_text (SelT n) (stextT n) e ++ [93%N]) d
+      = Some (map (fun p => (inner p, path p)) ps1)
+    /\ api_with_path (36%N :: 91%N :: 63%N :: 40%N :: or_text (SelT n) (stextT n) e ++ [41%N; 93%N]) d
+      = Some (map (fun p => (inner p, path p)) ps2)
+    /\ map node_of ps1 = map node_of ps2.
+Proof.
+  intros Hok Hgood Hw.
+  pose (e' := [[XParen (SelT n) false e]]).
+  assert (Hok' : eok (SelT n) (sokT n) e').
+  { destruct Hok as [Hne He]. split; [discriminate|]. intros c [<-|[]]. split; [discriminate|].
+    intros a [<-|[]]. constructor; assumption. }
+  assert (Hgood' : egood (SelT n) (sgoodT lit_arg n) (sastT n) lit_arg e').
+  { destruct Hgood as [Hne He]. split; [discriminate|]. intros c [<-|[]]. split; [discriminate|].
+    intros a [<-|[]]. constructor; assumption. }
+  destruct (filter_children_in_order n e d Hok Hgood Hw) as [ps1 [E1 N1]].
+  destruct (filter_children_in_order n e' d Hok' Hgood' Hw) as [ps2 [E2 N2]].
+  exists ps1, ps2. split; [exact E1|]. split.
+  - rewrite <- E2. f_equal. f_equal. f_equal. unfold filter_text, e', or_text, and_text. cbn [join atext bang app].
+    rewrite <- app_assoc. reflexivity.
+  - rewrite N1, N2. apply filter_ext. intros c. unfold e'.
+    change (or_ast (SelT n) (sastT n) [[XParen (SelT n) false e]])
+      with (FAtom (AFilter (or_ast (SelT n) (sastT n) e) false)).
+    autorewrite with rsteps. rewrite xorb_false_l. reflexivity.
+Qed.
+
+(* ---------- C13 at string level: `.name` and `['name']` ---------- *)
+From JP Require Import SpellFacts.
+Lemma name_ok_chars n : name_ok n ->
+  no_bslash n = true /\ no_ctl n = true
+  /\ forallb (fun x => negb (N.eqb x 39)) n = true /\ forallb (fun x => negb (N.eqb x 34)) n = true
+  /\ forallb plain_char n = true.
+Proof.
+  destruct n as [|c r]; [intros []|]. intros [Hc Hr].
+  assert (Hall : forall x, In x (c :: r) ->
+            (N.leb 32 x && negb (N.eqb x 39) && negb (N.eqb x 34) && negb (N.eqb x 92))%bool = true).
+  { intros x [<-|Hx]; apply name_char_plain; [apply name_first_char; exact Hc|apply (forallb_In _ _ _ Hr Hx)]. }
+  assert (Hp : forall x, In x (c :: r) -> plain_char x = true).
+  { intros x Hx. assert (Hb : name_char_b x = true) by (destruct Hx as [<-|Hx]; [apply name_first_char; exact Hc|apply (forallb_In _ _ _ Hr Hx)]).
+    unfold name_char_b in Hb. apply orb_true_iff in Hb. unfold plain_char.
+    destruct Hb as [Hb|Hb]; [apply name_first_cases in Hb|apply is_digit_bounds in Hb];
+      repeat match goal with |- context [N.leb ?a ?b] => destruct (N.leb_spec a b) end;
+      repeat match goal with |- context [N.eqb ?a ?b] => destruct (N.eqb_spec a b) end; try lia; reflexivity. }
+  unfold no_bslash, no_ctl. repeat split; apply forallb_forall; intros x Hx; try (apply Hp; exact Hx);
+    specialize (Hall x Hx); repeat (apply andb_true_iff in Hall; destruct Hall as [Hall ?]); assumption.
+Qed.
+
+Theorem shorthand_string_level n (d : json) :
+  name_ok n -> wf_json d = true ->
+  exists ps1 ps2,
+    api_with_path (36%N :: 46%N :: n) d = Some (map (fun p => (inner p, path p)) ps1)
+    /\ api_with_path (36%N :: 91%N :: 39%N :: n ++ [39%N; 93%N]) d = Some (map (fun p => (inner p, path p)) ps2)
+    /\ map node_of ps1 = map node_of ps2.
+Proof.
+  intros Hn Hw. destruct (name_ok_chars n Hn) as [Hb [Hc [H39 [H34 Hp]]]].
+  destruct (single_bracket_string_level (FName n) d Hp I Hw) as [ps2 [E2 N2]].
+  pose (q := [FShort n]).
+  assert (Hq1 : Forall seg_ok q) by (constructor; [exact Hn|constructor]).
+  assert (Hq2 : Forall seg_range q) by (constructor; [exact I|constructor]).
+  assert (Et : segs_text q = 46%N :: n) by (unfold q, segs_text; cbn [flat_map seg_text]; apply app_nil_r).
+  assert (E1 : exists ps1, api_with_path (36%N :: 46%N :: n) d = Some (map (fun p => (inner p, path p)) ps1)
+                           /\ map node_of ps1 = cur_query (query_ast q) d).
+  { unfold api_with_path. rewrite <- Et, (parse_frag q Hq1 Hq2).
+    destruct (js_path_process_refines rx_model_search rx_spec_full rx_spec_sub rx_model_full_ok rx_model_sub_ok
+                (query_ast q) d (query_ast_wf q Hq1)) as [ps [E1 E1']].
+    change (m_query (query_ast q) d = Some ps) in E1. exists ps. rewrite E1. split; [reflexivity|exact E1']. }
+  destruct E1 as [ps1 [E1 N1]]. exists ps1, ps2. split; [exact E1|]. split.
+  - rewrite <- E2. cbn [sel_text]. f_equal. f_equal. f_equal. cbn [app]. rewrite <- app_assoc. reflexivity.
+  - rewrite N1, N2. unfold query_ast, q. cbn [map segments_of_list seg_ast sel_ast].
+    unfold cur_query, s_query, r_query. autorewrite with rsteps. cbn [flat_map]. rewrite !app_nil_r. autorewrite with rsteps.
+    assert (Hne : n <> []) by (destruct n; [destruct Hn|discriminate]).
+    apply (proj2 (name_spellings_agree n ([], d) Hb Hc H39 H34) Hne).
+Qed.
